@@ -38,6 +38,9 @@ class BlockDownloadServer:
             sx.prove(cond, "client block download: " + what, "%s/frame/%s" % (self.tag, what))
 
     def _next_blksize(self):
+        if self.blksizes == ["sym"]:
+            # the server chooses the size of every sub-block anew (symbolic choice among typical sizes)
+            return (1, 2, 3, 127)[sx.choice(4, "blksize")]
         if len(self.blksizes) > 1:
             return self.blksizes.pop(0)
         return self.blksizes[0]
